@@ -558,6 +558,25 @@ func (c *Conn) Writes() []WriteRec {
 // WriteCount returns the number of client writes so far.
 func (c *Conn) WriteCount() int { c.mu.Lock(); defer c.mu.Unlock(); return c.writeN }
 
+// ReadDeadlineIn reports whether a read deadline is currently in force and how
+// far in the future it lies (negative once it has passed), from the log of
+// Set*Deadline calls.
+func (c *Conn) ReadDeadlineIn() (time.Duration, bool) {
+	c.mu.Lock()
+	defer c.mu.Unlock()
+	for i := len(c.deadlines) - 1; i >= 0; i-- {
+		d := c.deadlines[i]
+		if d.Kind == "w" {
+			continue
+		}
+		if d.In == 0 {
+			return 0, false
+		}
+		return d.At + d.In - c.now(), true
+	}
+	return 0, false
+}
+
 // Deadlines returns a copy of the deadline log.
 func (c *Conn) Deadlines() []DeadlineRec {
 	c.mu.Lock()
